@@ -839,8 +839,8 @@ class BaseWorkflow(object, metaclass=abc.ABCMeta):
         # 1. Set the earliest finish time of head tasks.
         for task in self.task_list:
             task.est = time
+            task.eft = time + task.remaining_work_amount
             if len(task.input_task_list) == 0:
-                task.eft = time + task.remaining_work_amount
                 input_task_set.add(task)
 
         # 2. Calculate PERT information of all tasks
@@ -870,7 +870,9 @@ class BaseWorkflow(object, metaclass=abc.ABCMeta):
                     else:
                         est = input_task.est + input_task.remaining_work_amount
                         eft = est + next_task.remaining_work_amount
-                    if est >= pre_est:
+                    # largest est wins; on a tie the larger eft (not the task visited
+                    # last in this unordered set)
+                    if est > pre_est or (est == pre_est and eft > next_task.eft):
                         next_task.est = est
                         next_task.eft = eft
                     next_task_set.add(next_task)
@@ -921,7 +923,13 @@ class BaseWorkflow(object, metaclass=abc.ABCMeta):
                     else:
                         lft = output_task.lst
                         lst = lft - prev_task.remaining_work_amount
-                    if pre_lft < 0 or pre_lft >= lft:
+                    # smallest lft wins; on a tie the smaller lst (not the task visited
+                    # last in this unordered set)
+                    if (
+                        pre_lft < 0
+                        or pre_lft > lft
+                        or (pre_lft == lft and prev_task.lst > lst)
+                    ):
                         prev_task.lst = lst
                         prev_task.lft = lft
                     prev_task_set.add(prev_task)
